@@ -16,6 +16,11 @@ type connIn struct {
 	Chunks  []int // sizes of the successive writes (sum = len(Stream))
 	SleepUs []int // pause after each write, microseconds
 	NoDelay bool
+	// STALL family (stall.go): Stream[:FirstLen] is a complete first call, Stream[FirstLen:] is sent after its reply,
+	// then the client is silent for longer than the (shortened) read deadline, then sends Rest
+	Stall    bool
+	FirstLen int
+	Rest     []byte
 }
 
 type caseIn struct {
@@ -532,6 +537,13 @@ func genConn(r *Rand, h handles, idx int, tags map[string]int) (connIn, string, 
 }
 
 func genInput(r *Rand, idx int, tier string, h handles) caseIn {
+	if idx%40 == 17 {
+		// the STALL family (decided by the index alone, so that the other indices generate what they always did):
+		// six connections in parallel, one per stall point plus a repeat of a random one
+		kinds := []int{0, 1, 2, 3, 4, 5}
+		kinds[r.Intn(6)] = 1 + r.Intn(4)
+		return stallCase(r, h, kinds)
+	}
 	in := caseIn{Tags: map[string]int{}}
 	c, kind, measured := genConn(r, h, idx, in.Tags)
 	in.Kind, in.Conns, in.Measured = kind, []connIn{c}, measured
@@ -608,6 +620,10 @@ func corpusInputs(h handles) []caseIn {
 		in := caseIn{Kind: "big-record", Measured: true, Tags: map[string]int{"stream_big-record": 1},
 			Conns: []connIn{{Desc: desc + ", then NULL", Stream: s, Chunks: []int{len(s)/3 + 1, len(s) - len(s)/3 - 1}, SleepUs: make([]int, 2)}}}
 		out = append(out, in)
+	}
+	// the STALL family: every stall point, three times with different sizes / XIDs
+	for k := 0; k < 3; k++ {
+		out = append(out, stallCase(NewRand(0xC15, uint64(1000+k)), h, []int{0, 1, 1, 1, 2, 3, 3, 4, 5}))
 	}
 	big("a record of exactly 1 MiB of zeros in three fragments", []int{400000, 0, 1<<20 - 400000}, true)
 	big("fragments of 1 MiB - 8 and 16 bytes: the second header crosses the limit", []int{1<<20 - 8, 16}, true)
